@@ -471,6 +471,28 @@ def e_isophote(inp):
     return [[(i.sma, i.x0, i.y0, i.eps, i.pa, i.intens) for i in iso], build_ellipse_model(img.shape, iso) if len(iso) > 2 else None]
 
 
+def galaxy_counts():
+    """an integer-valued (detector counts, peak 20000: fits int16) elliptical galaxy"""
+    y, x = np.mgrid[:121, :121]
+    pa, eps = 0.7, 0.3
+    xr = (x - 60.3) * np.cos(pa) + (y - 59.6) * np.sin(pa); yr = -(x - 60.3) * np.sin(pa) + (y - 59.6) * np.cos(pa)
+    return np.rint(20000.0 * np.exp(-np.sqrt(xr ** 2 + (yr / (1 - eps)) ** 2) / 25.0))
+
+
+def e_isophote_fit(inp):
+    """isophote fits of the image as it arrives (all integration modes; the area modes sum pixels)"""
+    from photutils.isophote import Ellipse, EllipseGeometry
+    img = inp.get('galaxy')
+    if img is None:
+        img = galaxy_counts()
+    out = []
+    for mode in ('bilinear', 'mean', 'median', 'nearest_neighbor'):
+        # (out to sma ~ 50: the sectors of the area modes hold 10 - 20 pixels of a few thousand counts each)
+        iso = Ellipse(img, EllipseGeometry(60.6, 59.3, 20.0, 0.25, 0.8)).fit_image(sma0=20.0, minsma=12.0, maxsma=52.0, step=0.3, integrmode=mode)
+        out.append([(i.sma, i.x0, i.y0, i.eps, i.pa, i.intens, i.rms, i.stop_code, i.ndata) for i in iso])
+    return out
+
+
 def e_calc_total_error(inp):
     import astropy.units as u
     from photutils.utils import calc_total_error
@@ -586,6 +608,7 @@ ENTRIES = {
     'interpolators': dict(f=e_interpolators, uses=['data', 'mask']),
     'segment_cutouts': dict(f=e_segment_cutouts, uses=['data', 'segm']),
     'plotting': dict(f=e_plotting, uses=['data', 'segm', 'mask']),
+    'isophote_fit': dict(f=e_isophote_fit, uses=['galaxy']),
 }
 
 
